@@ -108,7 +108,7 @@ def observe(kind, path, C):
     return obs
 
 
-def run_op_with_images(kind, prep, op, C, cfgbackend=False):
+def run_op_with_images(kind, prep, op, C, cfgbackend=False, warm=()):
     """prep: list of operations establishing the prior contents; op: the operation whose
     crash points are enumerated.  Returns (records, gates)."""
     base = mkscratch("xc-")
@@ -123,6 +123,9 @@ def run_op_with_images(kind, prep, op, C, cfgbackend=False):
             # as the collection /store/
             from .world import World
             st = World(frontend="wsgi", prefix="/", root=base, autocreate=False)
+        for o in warm:
+            # earlier requests of the same server process (same long-lived store object)
+            apply_op(st, o)
         pre = observe(kind, path, C)
         imgdir = os.path.join(base, "images")
         os.makedirs(imgdir)
